@@ -2,3 +2,502 @@
 // SPDX-License-Identifier: Apache-2.0
 
 //! verification hook drivers: cids
+//!
+//! Integer-level drivers for `LocalIdRegistry`, `PeerIdRegistry` and `ConnectionIdMapper`.
+//! Connection ids are 8 byte big endian integers, stateless reset tokens 16 byte big endian
+//! integers, times are microseconds since the clock epoch.
+
+use crate::{
+    connection::{
+        local_id_registry::LocalIdRegistrationError, ConnectionIdMapper, InternalConnectionId,
+        InternalConnectionIdGenerator, LocalIdRegistry, PeerIdRegistry,
+    },
+    transmission::{self, interest::Provider as _},
+};
+use core::time::Duration;
+use s2n_codec::{DecoderBufferMut, EncoderBuffer, EncoderValue};
+use s2n_quic_core::{
+    connection, endpoint,
+    event::{self, IntoEvent},
+    frame::{self, ack_elicitation::AckElicitation, Frame, FrameMut, FrameTrait},
+    packet::number::{PacketNumber, PacketNumberRange, PacketNumberSpace},
+    random, stateless_reset,
+    time::{timer::Provider as _, Timestamp},
+    transport,
+    varint::VarInt,
+};
+
+pub type V = i128;
+
+/// deterministic generator used only to key the mapper's hash maps
+struct Rng(u64);
+
+impl Rng {
+    fn fill(&mut self, dest: &mut [u8]) {
+        for b in dest.iter_mut() {
+            self.0 = self
+                .0
+                .wrapping_mul(6364136223846793005)
+                .wrapping_add(1442695040888963407);
+            *b = (self.0 >> 33) as u8;
+        }
+    }
+}
+
+impl random::Generator for Rng {
+    fn public_random_fill(&mut self, dest: &mut [u8]) {
+        self.fill(dest)
+    }
+
+    fn private_random_fill(&mut self, dest: &mut [u8]) {
+        self.fill(dest)
+    }
+}
+
+pub fn ts(us: u64) -> Timestamp {
+    unsafe { Timestamp::from_duration(Duration::from_micros(us)) }
+}
+
+pub fn ts_us(t: Timestamp) -> u64 {
+    unsafe { t.as_duration().as_micros() as u64 }
+}
+
+pub fn local_id(v: u64) -> connection::LocalId {
+    connection::LocalId::try_from_bytes(&v.to_be_bytes()).expect("8 byte id")
+}
+
+pub fn peer_id(v: u64) -> connection::PeerId {
+    connection::PeerId::try_from_bytes(&v.to_be_bytes()).expect("8 byte id")
+}
+
+pub fn token(v: u128) -> stateless_reset::Token {
+    stateless_reset::Token::from(v.to_be_bytes())
+}
+
+fn id_value(bytes: &[u8]) -> V {
+    let mut v: V = 0;
+    for b in bytes {
+        v = (v << 8) | (*b as V);
+    }
+    v
+}
+
+fn pn(v: u64) -> PacketNumber {
+    PacketNumberSpace::ApplicationData.new_packet_number(VarInt::new(v).expect("pn below 2^62"))
+}
+
+fn pn_range(lo: u64, hi: u64) -> PacketNumberRange {
+    PacketNumberRange::new(pn(lo), pn(hi.max(lo)))
+}
+
+pub fn constraint(v: V) -> transmission::Constraint {
+    match v {
+        0 => transmission::Constraint::None,
+        1 => transmission::Constraint::RetransmissionOnly,
+        2 => transmission::Constraint::CongestionLimited,
+        _ => transmission::Constraint::AmplificationLimited,
+    }
+}
+
+/// A frame as seen on the wire: `[tag, sequence_number, retire_prior_to, id, token]`
+/// (`[0x19, sequence_number, 0, 0, 0]` for RETIRE_CONNECTION_ID)
+pub type WireFrame = [V; 5];
+
+/// One packet: records every frame written into it by re-decoding the encoded bytes.
+pub struct Recorder {
+    pub now: Timestamp,
+    pub constraint: transmission::Constraint,
+    /// number of frames that still fit into the packet
+    pub capacity: usize,
+    pub packet_number: PacketNumber,
+    pub frames: Vec<WireFrame>,
+}
+
+impl Recorder {
+    fn record<F: EncoderValue>(&mut self, frame: &F) -> Option<PacketNumber> {
+        if self.capacity == 0 {
+            return None;
+        }
+        self.capacity -= 1;
+        let mut bytes = vec![0u8; frame.encoding_size()];
+        frame.encode(&mut EncoderBuffer::new(&mut bytes[..]));
+        let (decoded, remaining) = DecoderBufferMut::new(&mut bytes[..])
+            .decode::<FrameMut>()
+            .expect("written frame decodes");
+        assert_eq!(remaining.len(), 0);
+        let wire = match decoded {
+            Frame::NewConnectionId(f) => [
+                0x18,
+                f.sequence_number.as_u64() as V,
+                f.retire_prior_to.as_u64() as V,
+                id_value(f.connection_id),
+                id_value(&f.stateless_reset_token[..]),
+            ],
+            Frame::RetireConnectionId(f) => [0x19, f.sequence_number.as_u64() as V, 0, 0, 0],
+            _ => [-1, -1, 0, 0, 0],
+        };
+        self.frames.push(wire);
+        Some(self.packet_number)
+    }
+}
+
+impl transmission::Writer for Recorder {
+    fn current_time(&self) -> Timestamp {
+        self.now
+    }
+
+    fn transmission_constraint(&self) -> transmission::Constraint {
+        self.constraint
+    }
+
+    fn transmission_mode(&self) -> transmission::Mode {
+        transmission::Mode::Normal
+    }
+
+    fn remaining_capacity(&self) -> usize {
+        self.capacity * 64
+    }
+
+    fn write_frame<F>(&mut self, frame: &F) -> Option<PacketNumber>
+    where
+        F: EncoderValue + FrameTrait,
+        for<'frame> &'frame F: IntoEvent<event::builder::Frame>,
+    {
+        match self.constraint {
+            transmission::Constraint::AmplificationLimited => {
+                unreachable!("frames should not be written when we're amplification limited")
+            }
+            transmission::Constraint::CongestionLimited => {
+                assert!(!frame.is_congestion_controlled());
+            }
+            _ => {}
+        }
+        self.record(frame)
+    }
+
+    fn write_fitted_frame<F>(&mut self, frame: &F) -> PacketNumber
+    where
+        F: EncoderValue + FrameTrait,
+        for<'frame> &'frame F: IntoEvent<event::builder::Frame>,
+    {
+        self.write_frame(frame).expect("frame should fit")
+    }
+
+    fn write_frame_forced<F>(&mut self, frame: &F) -> Option<PacketNumber>
+    where
+        F: EncoderValue + FrameTrait,
+        for<'frame> &'frame F: IntoEvent<event::builder::Frame>,
+    {
+        self.record(frame)
+    }
+
+    fn ack_elicitation(&self) -> AckElicitation {
+        AckElicitation::Eliciting
+    }
+
+    fn packet_number(&self) -> PacketNumber {
+        self.packet_number
+    }
+
+    fn local_endpoint_type(&self) -> endpoint::Type {
+        endpoint::Type::Server
+    }
+
+    fn header_len(&self) -> usize {
+        0
+    }
+
+    fn tag_len(&self) -> usize {
+        0
+    }
+}
+
+fn local_err(e: Result<(), LocalIdRegistrationError>) -> V {
+    match e {
+        Ok(()) => 0,
+        Err(LocalIdRegistrationError::ConnectionIdInUse) => 1,
+        Err(LocalIdRegistrationError::InvalidSequenceNumber) => 2,
+    }
+}
+
+/// One endpoint's mapper with several connections' `LocalIdRegistry`
+pub struct LocalSide {
+    mapper: ConnectionIdMapper,
+    generator: InternalConnectionIdGenerator,
+    internal: Vec<InternalConnectionId>,
+    conns: Vec<Option<LocalIdRegistry>>,
+}
+
+impl LocalSide {
+    pub fn new() -> Self {
+        Self {
+            mapper: ConnectionIdMapper::new(&mut Rng(0x5eed), endpoint::Type::Server),
+            generator: InternalConnectionIdGenerator::new(),
+            internal: vec![],
+            conns: vec![],
+        }
+    }
+
+    /// creates a connection's registry with its handshake connection id; returns its index
+    pub fn open(&mut self, id: u64, tok: u128, expiration_us: Option<u64>, rotate: bool) -> usize {
+        let internal = self.generator.generate_id();
+        let registry = self.mapper.create_local_id_registry(
+            internal,
+            &local_id(id),
+            expiration_us.map(ts),
+            token(tok),
+            rotate,
+        );
+        self.internal.push(internal);
+        self.conns.push(Some(registry));
+        self.conns.len() - 1
+    }
+
+    pub fn is_open(&self, c: usize) -> bool {
+        self.conns[c].is_some()
+    }
+
+    fn reg(&mut self, c: usize) -> &mut LocalIdRegistry {
+        self.conns[c].as_mut().expect("open connection")
+    }
+
+    pub fn set_limit(&mut self, c: usize, limit: u64) {
+        self.reg(c).set_active_connection_id_limit(limit)
+    }
+
+    /// `connection_id_interest()`: number of new ids wanted
+    pub fn interest(&mut self, c: usize) -> V {
+        match self.reg(c).connection_id_interest() {
+            connection::id::Interest::None => 0,
+            connection::id::Interest::New(n) => n as V,
+        }
+    }
+
+    pub fn register(&mut self, c: usize, id: u64, tok: u128, expiration_us: Option<u64>) -> V {
+        local_err(self.reg(c).register_connection_id(
+            &local_id(id),
+            expiration_us.map(ts),
+            token(tok),
+        ))
+    }
+
+    pub fn retire(&mut self, c: usize, seq: u32, dcid: u64, rtt_us: u64, now_us: u64) -> V {
+        local_err(self.reg(c).on_retire_connection_id(
+            seq,
+            &local_id(dcid),
+            Duration::from_micros(rtt_us),
+            ts(now_us),
+        ))
+    }
+
+    pub fn transmit(
+        &mut self,
+        c: usize,
+        constraint_code: V,
+        capacity: usize,
+        packet_number: u64,
+        now_us: u64,
+    ) -> Vec<WireFrame> {
+        let mut rec = Recorder {
+            now: ts(now_us),
+            constraint: constraint(constraint_code),
+            capacity,
+            packet_number: pn(packet_number),
+            frames: vec![],
+        };
+        self.reg(c).on_transmit(&mut rec);
+        rec.frames
+    }
+
+    pub fn ack(&mut self, c: usize, lo: u64, hi: u64) {
+        self.reg(c).on_packet_ack(&pn_range(lo, hi))
+    }
+
+    pub fn loss(&mut self, c: usize, lo: u64, hi: u64) {
+        self.reg(c).on_packet_loss(&pn_range(lo, hi))
+    }
+
+    pub fn timeout(&mut self, c: usize, now_us: u64) {
+        self.reg(c).on_timeout(ts(now_us))
+    }
+
+    pub fn handshake_confirmed(&mut self, c: usize) {
+        self.reg(c).on_handshake_confirmed()
+    }
+
+    /// closes the connection: its registry is dropped
+    pub fn close(&mut self, c: usize) {
+        self.conns[c] = None;
+    }
+
+    /// armed expiration timer (0 = not armed)
+    pub fn timer(&mut self, c: usize) -> V {
+        self.reg(c).next_expiration().map_or(0, |t| ts_us(t) as V)
+    }
+
+    /// 0 none, 1 new data, 2 lost data, 3 forced
+    pub fn tx_interest(&mut self, c: usize) -> V {
+        match self.reg(c).get_transmission_interest() {
+            transmission::Interest::None => 0,
+            transmission::Interest::NewData => 1,
+            transmission::Interest::LostData => 2,
+            transmission::Interest::Forced => 3,
+        }
+    }
+
+    /// `lookup_internal_connection_id`: 0 = unknown, otherwise connection index + 1
+    pub fn lookup(&self, id: u64) -> V {
+        match self.mapper.lookup_internal_connection_id(&local_id(id)) {
+            None => 0,
+            Some((internal, _class)) => self
+                .internal
+                .iter()
+                .position(|i| *i == internal)
+                .map_or(-1, |p| p as V + 1),
+        }
+    }
+}
+
+/// A connection's `PeerIdRegistry` together with the mapper it shares state with
+pub struct PeerSide {
+    mapper: ConnectionIdMapper,
+    internal: InternalConnectionId,
+    reg: Option<PeerIdRegistry>,
+}
+
+impl PeerSide {
+    pub fn new(initial_id: u64, initial_token: Option<u128>, rotate: bool) -> Self {
+        let mut mapper = ConnectionIdMapper::new(&mut Rng(0x5eed), endpoint::Type::Client);
+        let internal = InternalConnectionIdGenerator::new().generate_id();
+        let mut reg = mapper.create_client_peer_id_registry(internal, rotate);
+        reg.register_initial_connection_id(peer_id(initial_id));
+        if let Some(tok) = initial_token {
+            reg.register_initial_stateless_reset_token(token(tok));
+        }
+        Self {
+            mapper,
+            internal,
+            reg: Some(reg),
+        }
+    }
+
+    fn reg(&mut self) -> &mut PeerIdRegistry {
+        self.reg.as_mut().expect("open connection")
+    }
+
+    /// A NEW_CONNECTION_ID frame as it arrives: encoded, decoded by the frame codec, converted as
+    /// `handle_new_connection_id_frame` does and handed to the registry.
+    /// Returns the transport error code (0 = accepted).
+    pub fn on_new_connection_id_frame(&mut self, seq: u64, rpt: u64, id: u64, tok: u128) -> V {
+        let id_bytes = id.to_be_bytes();
+        let tok_bytes = tok.to_be_bytes();
+        let frame = frame::NewConnectionId {
+            sequence_number: VarInt::new(seq).expect("below 2^62"),
+            retire_prior_to: VarInt::new(rpt).expect("below 2^62"),
+            connection_id: &id_bytes[..],
+            stateless_reset_token: &tok_bytes,
+        };
+        let mut bytes = vec![0u8; frame.encoding_size()];
+        frame.encode(&mut EncoderBuffer::new(&mut bytes[..]));
+        let res: Result<(), transport::Error> = (|| {
+            let (decoded, _remaining) = DecoderBufferMut::new(&mut bytes[..])
+                .decode::<FrameMut>()
+                .map_err(transport::Error::from)?;
+            let frame = match decoded {
+                Frame::NewConnectionId(f) => f,
+                _ => unreachable!("a NEW_CONNECTION_ID frame was encoded"),
+            };
+            let peer_id = connection::PeerId::try_from_bytes(frame.connection_id)
+                .expect("Length is validated when decoding the frame");
+            let sequence_number: u32 = frame
+                .sequence_number
+                .as_u64()
+                .try_into()
+                .map_err(|_err| transport::Error::PROTOCOL_VIOLATION)?;
+            let retire_prior_to: u32 = frame
+                .retire_prior_to
+                .as_u64()
+                .try_into()
+                .map_err(|_err| transport::Error::PROTOCOL_VIOLATION)?;
+            let stateless_reset_token = (*frame.stateless_reset_token).into();
+            self.reg().on_new_connection_id(
+                &peer_id,
+                sequence_number,
+                retire_prior_to,
+                &stateless_reset_token,
+            )?;
+            Ok(())
+        })();
+        match res {
+            Ok(()) => 0,
+            Err(e) => e.code.as_u64() as V,
+        }
+    }
+
+    pub fn is_active(&mut self, id: u64) -> bool {
+        self.reg().is_active(&peer_id(id))
+    }
+
+    /// `consume_new_id_for_new_path`: -1 = none available
+    pub fn consume_new_id(&mut self) -> V {
+        match self.reg().consume_new_id_for_new_path() {
+            None => -1,
+            Some(id) => id_value(id.as_bytes()),
+        }
+    }
+
+    pub fn transmit(
+        &mut self,
+        constraint_code: V,
+        capacity: usize,
+        packet_number: u64,
+        now_us: u64,
+    ) -> Vec<WireFrame> {
+        let mut rec = Recorder {
+            now: ts(now_us),
+            constraint: constraint(constraint_code),
+            capacity,
+            packet_number: pn(packet_number),
+            frames: vec![],
+        };
+        self.reg().on_transmit(&mut rec);
+        rec.frames
+    }
+
+    pub fn ack(&mut self, lo: u64, hi: u64) {
+        self.reg().on_packet_ack(&pn_range(lo, hi))
+    }
+
+    pub fn loss(&mut self, lo: u64, hi: u64) {
+        self.reg().on_packet_loss(&pn_range(lo, hi))
+    }
+
+    pub fn tx_interest(&mut self) -> V {
+        match self.reg().get_transmission_interest() {
+            transmission::Interest::None => 0,
+            transmission::Interest::NewData => 1,
+            transmission::Interest::LostData => 2,
+            transmission::Interest::Forced => 3,
+        }
+    }
+
+    /// `remove_internal_connection_id_by_stateless_reset_token`: was the token tracked by the
+    /// mapper for this connection? The lookup removes the entry (as a received stateless reset
+    /// does), so drivers call this only at the end of a case.
+    pub fn take_token(&mut self, tok: u128) -> bool {
+        match self
+            .mapper
+            .remove_internal_connection_id_by_stateless_reset_token(&token(tok))
+        {
+            Some(internal) => {
+                assert!(internal == self.internal);
+                true
+            }
+            None => false,
+        }
+    }
+
+    pub fn close(&mut self) {
+        self.reg = None;
+    }
+}
